@@ -1224,5 +1224,90 @@ theorem finalEnv_tat (hv : validateParams p = true) :
   rw [set_other _ _ _ _ (by decide), env19_tat p _ x (env9_tat p x)]
   simp [c20, hi]
 
+
+end withMeths
+
+/-! ### non-vacuity, and the one place where model and source differ -/
+
+/-- well-behaved primitives: every timeout fits a float, no `int` is too large, `wait_func` returns -/
+def okFacts : Facts := { fits := fun _ => true, big := fun _ => false }
+
+/-- a non-default configuration the source accepts -/
+def pAcc : ParamArgs :=
+  { stmin := .int 5, overrideStmin := .int 3, defaultTat := .bool true, rlWindow := .int 2, prod := .int 200000000,
+    txDl := .int 64, txMinLen := .int 8, canFd := .bool true, txPadding := .int 0xAA }
+/-- a non-default configuration the source rejects (`nan` window) -/
+def pRej : ParamArgs := { rlWindow := .nan, prod := .nan, stmin := .int 5 }
+
+theorem pAcc_coherent : Coherent pAcc okFacts := by constructor <;> decide
+theorem pRej_coherent : Coherent pRej okFacts := by constructor <;> decide
+
+example : run2 51 (paramsMeths pAcc okFacts) (paramsEnv pAcc {}) Src.TransportLayerLogic_Params_validate =
+    .ok (.ret pnone (finalEnv pAcc {})) :=
+  (params_validate_agrees pAcc okFacts {} pAcc_coherent (by simp) 51 (Nat.le_refl _)).1 (by decide)
+example : finalEnv pAcc {} ovrKey = some (pv (.float 3 1)) := finalEnv_override pAcc {}
+example : finalEnv pAcc {} tatKey = some tatFunc := finalEnv_tat pAcc {} (by decide)
+example : ∃ e, run2 51 (paramsMeths pRej okFacts) (paramsEnv pRej {}) Src.TransportLayerLogic_Params_validate =
+    .ok (.raised "ValueError" e) :=
+  (params_validate_agrees pRej okFacts {} pRej_coherent (by simp) 51 (Nat.le_refl _)).2 (by decide)
+
+/-- **Model and source differ on a timeout that does not fit a float** (repair D15 added `_fits_float` to the source; `validateParams`
+    has no term for it).  `rx_flowcontrol_timeout = 10**305` (Python: `_fits_float(10**305) = False`): the source raises `ValueError`,
+    `validateParams` accepts.  Not a defect of the code: `harness/core.py` hands such a value to the model as `+inf`
+    (so `validateParams` sees a non-int and rejects too); the difference is between `validateParams` and the RAW value. -/
+def pBig : ParamArgs := { tFc := .int (10 ^ 305) }
+def fBig : Facts := { fits := fun i => decide (i < 10 ^ 302), big := fun _ => false }
+
+set_option exponentiation.threshold 512 in
+theorem fits_disagreement :
+    validateParams pBig = true ∧ Coherent pBig fBig ∧
+    ∀ n, 51 ≤ n → ∃ e, run2 n (paramsMeths pBig fBig) (paramsEnv pBig {}) Src.TransportLayerLogic_Params_validate =
+      .ok (.raised "ValueError" e) := by
+  have hC : Coherent pBig fBig := by constructor <;> decide
+  refine ⟨by decide, hC, fun n hn => ?_⟩
+  exact params_validate_not_fits pBig fBig {} hC (by simp) (.inl (by decide)) n hn
+
+section withMeths
+variable (p : ParamArgs) (F : Facts) (env : Env) (x : Extra)
+local notation "M" => paramsMeths p F
+
+/-! ## 8. `Params.__init__` -/
+
+/-- the module-level names `__init__` reads -/
+def initEnv : Env := fun k =>
+  match k with
+  | "isotp.address.TargetAddressType.Physical" => some tatPhys
+  | "isotp.address.TargetAddressType.Functional" => some tatFunc
+  | "TransportLayer.LOGGER_NAME" => some (.str "isotp")
+  | "time.sleep" => some (.meth "time.sleep")
+  | _ => none
+
+/-- how the constructed object holds what `ParamArgs` has no field for: `default_target_address_type` is the MEMBER `Physical`
+    (presented by the model's default `.int 0`), `logger_name = 'isotp'`, `wait_func = time.sleep` -/
+def xInit : Extra := { tatAsMember := true, logger := .str "isotp", waitFunc := .meth "time.sleep" }
+
+/-- the object `__init__` builds, as nested assignments -/
+def initResult : Env :=
+  ((((((((((((((((((((initEnv.set "self.stmin" (pint 0)).set "self.blocksize" (pint 8)).set "self.override_receiver_stmin" pnone).set
+    "self.rx_flowcontrol_timeout" (pint 1000)).set "self.rx_consecutive_frame_timeout" (pint 1000)).set "self.tx_padding" pnone).set
+    "self.wftmax" (pint 0)).set "self.tx_data_length" (pint 8)).set "self.tx_data_min_length" pnone).set
+    "self.max_frame_size" (pint 4095)).set "self.can_fd" (pbool false)).set "self.bitrate_switch" (pbool false)).set
+    "self.default_target_address_type" tatPhys).set "self.rate_limit_max_bitrate" (pint 100000000)).set
+    "self.rate_limit_window_size" (pv (.float 1 5))).set "self.rate_limit_enable" (pbool false)).set
+    "self.listen_mode" (pbool false)).set "self.blocking_send" (pbool false)).set "self.logger_name" (.str "isotp")).set
+    "self.wait_func" (.meth "time.sleep")
+
+theorem init_run (F : Facts) :
+    runFn (paramsMeths {} F) initEnv Src.TransportLayerLogic_Params_init = .ok (pnone, initResult) := by
+  simp [runFn, Src.TransportLayerLogic_Params_init, execBlock, execStmt, eval, evalArgs, nb_lit, M_lit, lit_02, initEnv, Env.set,
+    initResult]
+
+/-- the constructed object IS the presentation of the default `ParamArgs` (every attribute; the two module constants aside) -/
+theorem initResult_eq (k : String) (h1 : k ≠ "TransportLayer.LOGGER_NAME") (h2 : k ≠ "time.sleep") :
+    initResult k = paramsEnv {} xInit k := by
+  unfold paramsEnv
+  split <;> first | rfl | skip
+  sorry
+
 end withMeths
 end Isotp.PyAgree.Params
